@@ -164,6 +164,7 @@ func (t *trio) send(ep string, lr lreq, acceptedStatus int) result {
 	switch ep {
 	case "grpc":
 		body, raw := lr.Body, []byte(nil)
+		delete(hdr, "X-Verif-Chunked")
 		if hdr["X-Verif-Rawbody"] != "" { // harness-only marker: use the raw_body field instead of body
 			delete(hdr, "X-Verif-Rawbody")
 			body, raw = "", []byte(lr.Body)
@@ -193,7 +194,11 @@ func (t *trio) send(ep string, lr lreq, acceptedStatus int) result {
 		var body io.Reader
 		if lr.Body != "" {
 			body = bytes.NewReader([]byte(lr.Body))
+			if hdr["X-Verif-Chunked"] != "" { // harness-only marker: body of unknown length (chunked transfer encoding)
+				body = struct{ io.Reader }{body}
+			}
 		}
+		delete(hdr, "X-Verif-Chunked")
 		req, err := http.NewRequest(lr.Method, "http://"+a.Addr()+"/", body)
 		if err != nil {
 			res.Transport = err.Error()
